@@ -151,6 +151,13 @@ func (c *Ctx) callDesc(call *ssa.Call) string {
 }
 
 func assertHolds(dyn, asserted types.Type) bool {
+	// receiver type parameters are distinct objects per method declaration: T of (X[T]).A and T of (X[T]).B denote
+	// the same type argument when they have the same position and name
+	if a, ok := dyn.(*types.TypeParam); ok {
+		if b, ok := asserted.(*types.TypeParam); ok {
+			return a.Index() == b.Index() && a.Obj().Name() == b.Obj().Name()
+		}
+	}
 	if it, ok := asserted.Underlying().(*types.Interface); ok {
 		if _, isTP := asserted.(*types.TypeParam); !isTP {
 			return types.Implements(dyn, it)
